@@ -16,7 +16,7 @@ from typing import Iterable, List, Optional, TextIO, Hashable, Union, Dict, Any
 
 from Bio import SeqIO
 from Bio.Seq import Seq
-from Bio.SeqFeature import SeqFeature
+from Bio.SeqFeature import SeqFeature, CompoundLocation
 from Bio.SeqRecord import SeqRecord
 from inscripta.biocantor.gene import (
     TranslationTable,
@@ -108,6 +108,15 @@ def collection_to_genbank(
         seqrecords.append(seqrecord)
 
     SeqIO.write(seqrecords, genbank_file_handle_or_path, format="genbank")
+
+
+def _order_parts_for_strand(location, strand: Strand):
+    """BioPython keeps the parts of a minus-strand ``CompoundLocation`` in 5'->3' (descending) order and reverses them
+    when writing, so that the INSDC text reads ``complement(join(ascending parts))``. BioCantor blocks are always
+    ascending, so they must be handed over reversed for minus-strand features."""
+    if strand == Strand.MINUS and isinstance(location, CompoundLocation):
+        return CompoundLocation(location.parts[::-1], location.operator)
+    return location
 
 
 def gene_to_feature(
@@ -271,7 +280,7 @@ def transcripts_to_feature(
             yield add_cds_feature(transcript, transcript_qualifiers, strand, translation_table, update_translations)
         else:
             # build this feature; it could be a mRNA for eukaryotic, or non-coding for either prokaryotic or eukaryotic
-            feature = SeqFeature(location, type=feat_type.value, strand=strand.value)
+            feature = SeqFeature(_order_parts_for_strand(location, strand), type=feat_type.value, strand=strand.value)
             feature.qualifiers = transcript_qualifiers.copy()
 
             # NCBI does not like protein_id on transcript level features
@@ -309,7 +318,7 @@ def add_cds_feature(
     Returns:
         ``SeqFeature`` for the CDS of this transcript.
     """
-    location = transcript.cds.chunk_relative_location.to_biopython()
+    location = _order_parts_for_strand(transcript.cds.chunk_relative_location.to_biopython(), strand)
     feature = SeqFeature(location, type=GeneIntervalFeatures.CDS.value, strand=strand.value)
     feature.qualifiers = transcript_qualifiers
 
@@ -371,7 +380,9 @@ def feature_intervals_to_features(
                 warnings.warn(warn_str, StrandViolationWarning)
                 continue
 
-        feature = SeqFeature(location, type=FeatureIntervalFeatures.FEATURE_INTERVAL.value, strand=strand.value)
+        feature = SeqFeature(
+            _order_parts_for_strand(location, strand), type=FeatureIntervalFeatures.FEATURE_INTERVAL.value, strand=strand.value
+        )
         feature.qualifiers = feature_qualifiers.copy()
 
         yield feature
